@@ -148,6 +148,7 @@ func (set *TemplateSet) resolveTemplate(tpl *Template, path string) (name string
 // it will remove the template caches of those filenames.
 // Or it will empty the whole template cache. It is thread-safe.
 func (set *TemplateSet) CleanCache(filenames ...string) {
+	verifPoint("CleanCache.lock", &set.templateCacheMutex)
 	set.templateCacheMutex.Lock()
 	defer set.templateCacheMutex.Unlock()
 
@@ -173,6 +174,7 @@ func (set *TemplateSet) FromCache(filename string) (*Template, error) {
 	// Cache the template
 	cleanedFilename := set.resolveFilename(nil, filename)
 
+	verifPoint("FromCache.lock", &set.templateCacheMutex)
 	set.templateCacheMutex.Lock()
 	defer set.templateCacheMutex.Unlock()
 
